@@ -222,3 +222,24 @@ def parse_expr(s):
 
 def parse_stmt(s):
     return ast.parse(s).body[0]
+
+
+def inline_single_defs(fn_node, expr, keep=(), depth=3):
+    """Replace local names that are assigned exactly once in the function (and are not parameters / in `keep`) by their
+    defining expressions, repeatedly.  Makes rules independent of temporaries introduced or removed by a refactoring."""
+    defs = {}
+    params = {a.arg for a in fn_node.args.args + fn_node.args.kwonlyargs} if hasattr(fn_node, "args") else set()
+    for st in ast.walk(fn_node):
+        if isinstance(st, ast.Assign) and len(st.targets) == 1 and isinstance(st.targets[0], ast.Name):
+            defs.setdefault(st.targets[0].id, []).append(st.value)
+        elif isinstance(st, (ast.AugAssign, ast.For, ast.With, ast.comprehension)):
+            for n in ast.walk(st.target if not isinstance(st, ast.With) else st):
+                if isinstance(n, ast.Name) and isinstance(n.ctx, ast.Store):
+                    defs.setdefault(n.id, []).extend([None, None])
+    single = {k: v[0] for k, v in defs.items() if len(v) == 1 and v[0] is not None and k not in params and k not in keep}
+    for _ in range(depth):
+        new = subst_names(expr, single)
+        if ast.dump(new) == ast.dump(expr):
+            break
+        expr = new
+    return expr
